@@ -3,13 +3,22 @@ ENGINES = [
      "kind_free_text": "crash-point enumeration over the syscall log (strace) of the real writer: all byte prefixes of the write sequence, recovery and restart executed on the real library"},
     {"name": "gridmc", "path": "mc/checks", "serves_properties": ["C18"],
      "kind_free_text": "exhaustive enumeration of finite option lattices / member lists crossed with small branch-covering data alphabets, each point compared with an oracle independent of REBOUND"},
-    {"name": "histmc", "path": "mc/histmc.py", "serves_properties": ["C05", "C06", "C08", "C09", "C13", "C14", "C17"],
+    {"name": "histmc", "path": "mc/histmc.py", "serves_properties": ["C05", "C06", "C08", "C09", "C13", "C14", "C15", "C17"],
      "kind_free_text": "explicit-state breadth-first exploration of operation histories on the real library object (state = history, canonical digest de-duplication, reference-model oracle on every transition)"},
 ]
 NOTES = ("All checks explore the real implementation rebuilt from /repo's working tree (mc/build.py); no abstract model is used, "
          "so traces_validated_against_impl equals the number of executed transitions. known_findings.json lists repaired defects (fixed:) and recorded ones.")
 NOT_APPLICABLE = {}
 CHECKS = {
+    "C15": {
+        "engine": "histmc", "category": "model_checking",
+        "technique": "exhaustive enumeration of particle placements x boundary x root layout x module x operation histories on the real ASan-built library, with a boundary oracle and a read-only tree walker evaluated after every operation",
+        "text": "Ballistic particles from a 15-entry alphabet (positions exactly on and 1e-3 next to box faces and cell borders, velocities up to 2.3 boxes per step) in every 1-2 subset (quick; thorough: 1-3) x boundary {open, periodic, shear} x root layout {1x1x1, 2x1x1, 2x2x1} "
+                "x module {tree gravity, tree collisions, none} x every history over {step, remove, add, move_to_com} up to depth 3 (quick) / 4 (thorough): ~1M transitions. After every step: periodic/shear - inside the box, particle set unchanged, x/z (and y) displacement from the free drift a whole number of box lengths, "
+                "vy offset = 1.5*Omega*Lx per radial crossing, y offset consistent with the shear; open - survivors are exactly the particles whose free drift is still inside. After every step/move_to_com a ctypes walker over struct reb_treecell checks: each particle index in exactly one leaf, the leaf contains it, "
+                "particles[i].c points to it, internal pt = -(particles below), child widths, and (after reb_simulation_update_tree_gravity_data) cell mass and centre of mass equal the sums over the contents. ASan aborts on any invalid access.",
+        "note": "Trajectories are ballistic by construction (G=1e-30), so only wrapping/removal/tree bookkeeping is exercised; tree gravity/collision agreement with the direct routines is covered under C02/C13.",
+    },
     "C13": {
         "engine": "histmc", "category": "model_checking",
         "technique": "exhaustive enumeration of sphere placements x search modes x boundaries (detection) and of every processing order of the pending-collision list (resolution) on the real ASan-built library",
